@@ -251,6 +251,22 @@ func c18Codecs(n int) map[string]c18Codec { //nolint:cyclop
 
 			return map[string]any{"type": int(m.MessageType), "cookie": ints(m.Cookie[:])}, re, err
 		}},
+		"plain12": {"recordlayer.RecordLayer", func(b []byte) (any, []byte, error) {
+			var rl recordlayer.RecordLayer
+			if err := rl.Unmarshal(b); err != nil {
+				return nil, nil, err
+			}
+			h := rl.Header
+			body, err := rl.Content.Marshal()
+			if err != nil {
+				return nil, nil, err
+			}
+			re, err := rl.Marshal()
+
+			return map[string]any{"hdr": map[string]any{"type": int(h.ContentType), "ver": []int{int(h.Version.Major), int(h.Version.Minor)},
+				"epoch": int(h.Epoch), "seq": limbs(h.SequenceNumber, 3), "cid": ints(h.ConnectionID), "len": int(h.ContentLen)},
+				"body": ints(body)}, re, err
+		}},
 		"inner": {"recordlayer.InnerPlaintext", func(b []byte) (any, []byte, error) {
 			var p recordlayer.InnerPlaintext
 			if err := p.Unmarshal(b); err != nil {
@@ -313,7 +329,7 @@ func c18Unpack(r *c18Res, name string, b []byte, d *c18Dec, canonical bool, f fu
 
 func c18DoStage1(v *c18Vec, r *c18Res) { //nolint:cyclop
 	switch v.K {
-	case "hdr12", "uhdr", "hshdr", "alert", "ack", "rrc", "inner":
+	case "hdr12", "uhdr", "hshdr", "alert", "ack", "rrc", "inner", "plain12":
 		c := c18Codecs(v.N)[v.K]
 		c18Offer(r, c, v.Enc, &c18Dec{OK: true, Used: len(v.Enc), H: v.Val}, true)
 		for i := range v.Variants {
